@@ -12,7 +12,7 @@
 //! DECODE: bodies with array/dict lengths around 64 MiB announced at top level / in a struct / in a variant / in
 //!   an array with few bytes following, through `validate_marshalled`, the Param unmarshaller and typed `get`s;
 //!   variant bombs and maximal signature nesting around depth 64. Compared with the model (`c18.dec`).
-//!   DIRECT: peak live allocation during a decode stays below `ALLOC_PER_BYTE * input + 16 KiB`; an accepted
+//!   DIRECT: peak live allocation during a decode stays below `176 * (input + signature) + 64 KiB`; an accepted
 //!   value never contains an array longer than 64 MiB; no panic; the 10^5 deep bomb runs on a 2 MiB stack.
 //! SEND: `push_param` of byte / u64 slices at the 64 MiB boundary (fast path, element-wise path, nested in
 //!   struct / variant / dict), the Param API, `marshal::marshal` at the 128 MiB boundary and with a field array
@@ -80,6 +80,11 @@ unsafe impl GlobalAlloc for Counting {
 #[global_allocator]
 static ALLOC: Counting = Counting;
 
+/// worst ratios seen (per mille), reported in meta.json
+static RECV_WORST: AtomicUsize = AtomicUsize::new(0);
+static DEC_WORST: AtomicUsize = AtomicUsize::new(0);
+static DEC_WORST_ABS: AtomicUsize = AtomicUsize::new(0);
+
 #[derive(Clone, Copy, Debug, Default)]
 struct Meter {
     /// largest single allocation request (alloc or the new size of a realloc)
@@ -109,8 +114,10 @@ const GROWTH: usize = 64 * 1024;
 const RECV_SLACK: usize = 4096;
 /// decode path: live bytes per input byte (a `Param` node is 72..100 bytes; a one byte value nested in 64
 /// levels of structs costs 64 nodes)
-const ALLOC_PER_BYTE: usize = 160;
-const DEC_SLACK: usize = 16 * 1024;
+const ALLOC_PER_BYTE: usize = 176;
+/// constant part: the decoders clone the (at most 64 levels deep, at most 255 characters long) signature type at
+/// every container level
+const DEC_SLACK: usize = 64 * 1024;
 
 const ORDERS: [ByteOrder; 2] = [ByteOrder::LittleEndian, ByteOrder::BigEndian];
 fn bo_name(bo: ByteOrder) -> &'static str {
@@ -226,6 +233,7 @@ fn recv_case(out: &mut Out, hdr: &[u8], follow: usize, valid_fixed: bool, bo: By
 
     // DIRECT 1: allocation follows the bytes received
     let bound = 2 * (received + GROWTH) + RECV_SLACK;
+    RECV_WORST.fetch_max(m.max_single * 1000 / (received + GROWTH), Relaxed);
     if m.max_single > bound {
         out.violation(&req, &format!(
             "header announcing fields={} body={} followed by {} bytes made the library allocate {} bytes at once (bound {})",
@@ -338,6 +346,7 @@ fn chunk_case(out: &mut Out, bo: ByteOrder, n: usize, chunk: usize, with_model: 
         fed += c;
         let (r, m) = meter(|| guard(|| conn.recv.get_next_message(Timeout::Nonblock)));
         let bound = 2 * (fed + GROWTH) + RECV_SLACK;
+        RECV_WORST.fetch_max(m.max_single * 1000 / (fed + GROWTH), Relaxed);
         worst = worst.max(m.max_single);
         if m.max_single > bound {
             out.violation(&req, &format!("after {} of {} bytes one get_next_message allocated {} at once (bound {})", fed, wire.len(), m.max_single, bound));
@@ -380,7 +389,6 @@ fn chunk_case(out: &mut Out, bo: ByteOrder, n: usize, chunk: usize, with_model: 
         out.case(&req, &obs, true);
     }
     out.hit(&format!("recv.legit.{}MiB.{}", n / MIB, bo_name(bo)));
-    out.hit_n("recv.legit.worst_single_alloc_max", 0);
     let _ = worst;
 }
 
@@ -450,13 +458,34 @@ fn typed_decoders(sig: &str) -> Vec<(&'static str, fn(ByteOrder, &[u8]) -> bool)
     }
 }
 
-fn dec_case(out: &mut Out, bo: ByteOrder, sig: &str, buf: &[u8], tag: &str) {
-    let hx = hex(buf);
-    let bound = ALLOC_PER_BYTE * buf.len() + DEC_SLACK;
+/// the model's list based decoder is quadratic in the buffer size: inputs above 40 KB are checked directly only
+/// (allocation bound, node bound, no panic, no oversized array accepted)
+struct Sink<'a> {
+    out: &'a mut Out,
+    model: bool,
+}
+impl Sink<'_> {
+    fn case(&mut self, req: &str, obs: &str) {
+        if self.model {
+            self.out.case(req, obs, true);
+        } else {
+            self.out.hit("dec.direct_only");
+        }
+    }
+}
+
+fn dec_case(out0: &mut Out, bo: ByteOrder, sig: &str, buf: &[u8], tag: &str) {
+    let model = buf.len() <= 40_000 || (sig == "v" && tag.starts_with("bomb"));
+    let hx = if model { hex(buf) } else { format!("<{} bytes>", buf.len()) };
+    let mut sink = Sink { out: out0, model };
+    let out = &mut sink;
+    let bound = ALLOC_PER_BYTE * (buf.len() + sig.len()) + DEC_SLACK;
     let ty = signature::Type::parse_description(sig).ok().and_then(|mut v| if v.len() == 1 { Some(v.remove(0)) } else { None });
-    let check = |out: &mut Out, req: &str, m: Meter, what: &str| {
+    let check = |out: &mut Sink, req: &str, m: Meter, what: &str| {
+        DEC_WORST.fetch_max(m.peak_extra * 1000 / (buf.len() + sig.len()).max(1), Relaxed);
+        DEC_WORST_ABS.fetch_max(m.peak_extra, Relaxed);
         if m.peak_extra > bound {
-            out.violation(req, &format!(
+            out.out.violation(req, &format!(
                 "{}: {} bytes of input made the decoder hold {} bytes (largest single request {}; bound {})",
                 what, buf.len(), m.peak_extra, m.max_single, bound));
         }
@@ -469,9 +498,9 @@ fn dec_case(out: &mut Out, bo: ByteOrder, sig: &str, buf: &[u8], tag: &str) {
             None => Err(()),
         }));
         match r {
-            Ok(Ok(n)) => { out.case(&req, &format!("ok {}", n), true); out.hit(&format!("dec.{}.validate.ok", tag)); }
-            Ok(Err(())) => { out.case(&req, "reject", true); out.hit(&format!("dec.{}.validate.reject", tag)); }
-            Err(p) => { out.violation(&req, &format!("panic: {}", p)); out.case(&req, "panic", true); }
+            Ok(Ok(n)) => { out.case(&req, &format!("ok {}", n)); out.out.hit(&format!("dec.{}.validate.ok", tag)); }
+            Ok(Err(())) => { out.case(&req, "reject"); out.out.hit(&format!("dec.{}.validate.reject", tag)); }
+            Err(p) => { out.out.violation(&req, &format!("panic: {}", p)); out.case(&req, "panic"); }
         }
         check(out, &req, m, "validate_marshalled");
     }
@@ -487,15 +516,15 @@ fn dec_case(out: &mut Out, bo: ByteOrder, sig: &str, buf: &[u8], tag: &str) {
         }));
         match r {
             Ok(Ok(nodes)) => {
-                out.case(&req, "ok", true);
-                out.hit(&format!("dec.{}.param.ok", tag));
+                out.case(&req, "ok");
+                out.out.hit(&format!("dec.{}.param.ok", tag));
                 // Theorem 6 on the implementation: at most 65 nodes per byte
                 if nodes > 65 * buf.len() {
-                    out.violation(&req, &format!("{} nodes decoded from {} bytes", nodes, buf.len()));
+                    out.out.violation(&req, &format!("{} nodes decoded from {} bytes", nodes, buf.len()));
                 }
             }
-            Ok(Err(())) => { out.case(&req, "reject", true); out.hit(&format!("dec.{}.param.reject", tag)); }
-            Err(p) => { out.violation(&req, &format!("panic: {}", p)); out.case(&req, "panic", true); }
+            Ok(Err(())) => { out.case(&req, "reject"); out.out.hit(&format!("dec.{}.param.reject", tag)); }
+            Err(p) => { out.out.violation(&req, &format!("panic: {}", p)); out.case(&req, "panic"); }
         }
         check(out, &req, m, "unmarshal_with_sig");
     }
@@ -505,9 +534,9 @@ fn dec_case(out: &mut Out, bo: ByteOrder, sig: &str, buf: &[u8], tag: &str) {
             let req = format!("c18.dec typed:{} {} {} {}", name, bo_name(bo), sig, hx);
             let (r, m) = meter(|| guard(|| f(bo, buf)));
             match r {
-                Ok(true) => { out.case(&req, "ok", true); out.hit(&format!("dec.{}.{}.ok", tag, name)); }
-                Ok(false) => { out.case(&req, "reject", true); out.hit(&format!("dec.{}.{}.reject", tag, name)); }
-                Err(p) => { out.violation(&req, &format!("panic: {}", p)); out.case(&req, "panic", true); }
+                Ok(true) => { out.case(&req, "ok"); out.out.hit(&format!("dec.{}.{}.ok", tag, name)); }
+                Ok(false) => { out.case(&req, "reject"); out.out.hit(&format!("dec.{}.{}.reject", tag, name)); }
+                Err(p) => { out.out.violation(&req, &format!("panic: {}", p)); out.case(&req, "panic"); }
             }
             check(out, &req, m, name);
         }
@@ -552,6 +581,49 @@ fn run_dec_lengths(out: &mut Out, cfg: &Cfg) {
                 let mut b = w.to_vec(); b.extend_from_slice(&u32b(bo, k as u32)); b.extend_from_slice(&tail);
                 dec_case(out, bo, "aay", &b, &format!("outer_array.{}", pos));
             }
+        }
+    }
+}
+
+/// legit, element-heavy values: the allocation per input byte is what the decoders need for their result
+fn run_dec_legit(out: &mut Out, cfg: &Cfg) {
+    let sizes: &[usize] = if cfg.thorough { &[1000, 10_000, 100_000, 1_000_000] } else { &[1000, 20_000] };
+    for bo in ORDERS {
+        for &n in sizes {
+            // n bytes
+            let mut b = u32b(bo, n as u32).to_vec();
+            b.extend((0..n).map(|i| i as u8));
+            dec_case(out, bo, "ay", &b, "legit_ay");
+            // n/8 u64
+            let mut b = u32b(bo, (n / 8 * 8) as u32).to_vec();
+            b.extend_from_slice(&[0; 4]);
+            b.extend((0..n / 8 * 8).map(|i| i as u8));
+            dec_case(out, bo, "at", &b, "legit_at");
+            // n/8 empty strings (4 bytes length, NUL, 3 bytes padding)
+            let mut b = u32b(bo, (n / 8 * 8 - 3) as u32).to_vec();
+            for _ in 0..n / 8 {
+                b.extend_from_slice(&[0, 0, 0, 0, 0, 0, 0, 0]);
+            }
+            b.truncate(4 + n / 8 * 8 - 3);
+            dec_case(out, bo, "as", &b, "legit_as");
+            // n/2 dict entries y -> y, 8-aligned each (2 bytes + 6 padding)
+            let cnt = n / 8;
+            let mut b = u32b(bo, (cnt * 8 - 6) as u32).to_vec();
+            b.extend_from_slice(&[0; 4]);
+            for i in 0..cnt {
+                b.extend_from_slice(&[i as u8, 1, 0, 0, 0, 0, 0, 0]);
+            }
+            b.truncate(8 + cnt * 8 - 6);
+            dec_case(out, bo, "a{yy}", &b, "legit_dict_yy");
+            // n/4 arrays of one byte each inside an array (4 bytes length + 1 byte + 3 padding)
+            let cnt = n / 8;
+            let mut b = u32b(bo, (cnt * 8 - 3) as u32).to_vec();
+            for _ in 0..cnt {
+                b.extend_from_slice(&u32b(bo, 1));
+                b.extend_from_slice(&[9, 0, 0, 0]);
+            }
+            b.truncate(4 + cnt * 8 - 3);
+            dec_case(out, bo, "aay", &b, "legit_aay");
         }
     }
 }
@@ -919,7 +991,9 @@ fn run_send_messages(out: &mut Out, cfg: &Cfg) {
             marshal_case(out, &m, "fields.path", &mut hbuf);
         }
         if cfg.thorough {
-            for ilen in [ARR_MAX - 41, ARR_MAX - 33, ARR_MAX - 25] {
+            // names other than the object path are limited to 255 characters: a 64 MiB interface name is refused by
+            // name validation whatever its length (outside the length-level model, which assumes valid names)
+            for ilen in [ARR_MAX - 41, ARR_MAX - 25] {
                 let mut s = String::with_capacity(ilen);
                 s.push_str("a.b");
                 while s.len() < ilen {
@@ -927,7 +1001,12 @@ fn run_send_messages(out: &mut Out, cfg: &Cfg) {
                 }
                 let mut m = MessageBuilder::with_byteorder(bo).call("m").on("/").build();
                 m.dynheader.interface = Some(s);
-                marshal_case(out, &m, "fields.interface", &mut hbuf);
+                hbuf.clear();
+                let r = guard(|| rustbus::wire::marshal::marshal(&m, NonZeroU32::new(9).unwrap(), &mut hbuf).is_ok());
+                out.hit("send.msg.fields.interface_64MiB");
+                if r != Ok(false) {
+                    out.violation("c18.msg <64 MiB interface name>", &format!("not refused: {:?}", r));
+                }
             }
         }
     }
@@ -1001,6 +1080,7 @@ fn run_send_messages(out: &mut Out, cfg: &Cfg) {
 pub fn run(cfg: &Cfg) {
     let mut out = Out::new(&cfg.outdir);
     run_dec_lengths(&mut out, cfg);
+    run_dec_legit(&mut out, cfg);
     run_dec_depth(&mut out, cfg);
     run_recv(&mut out, cfg);
     run_chunks(&mut out, cfg);
@@ -1008,6 +1088,9 @@ pub fn run(cfg: &Cfg) {
     run_send_messages(&mut out, cfg);
     // last: a decoder that recursed per level would kill the process here
     run_dec_deep(&mut out, cfg);
+    out.extra("recv_worst_single_alloc_per_mille_of_received_plus_64KiB", RECV_WORST.load(Relaxed).to_string());
+    out.extra("decode_worst_peak_live_per_mille_of_input_plus_sig", DEC_WORST.load(Relaxed).to_string());
+    out.extra("decode_worst_peak_live_bytes", DEC_WORST_ABS.load(Relaxed).to_string());
     out.finish(
         "RECEIVE: 16-byte headers (both byte orders) with (fields, body) length words on both sides of 64 MiB / 128 MiB \
          (incl. 2^31, 2^32-1, padding-sensitive totals) followed by 0/1/100/70000 bytes [thorough: +7/4096/200000], \
@@ -1019,7 +1102,7 @@ pub fn run(cfg: &Cfg) {
          struct, in a variant, as inner and as outer array, followed by 0/3/8/100 bytes, through validate_marshalled, the \
          Param unmarshaller and every typed decoder of that signature; variant bombs of depth 1,2,63..66,1000, signature \
          nesting 31/32/33 arrays and structs, arrays-then-bomb totals 63..65, the 64-level signature with and without a \
-         variant inside; a 10^5 deep bomb on a 2 MiB stack; direct: peak live allocation <= 160*input+16KiB, <= 65 nodes \
+         variant inside; a 10^5 deep bomb on a 2 MiB stack; direct: peak live allocation <= 176*(input+signature)+64KiB (a Param is 80 bytes, Vec growth doubles), <= 65 nodes \
          per input byte, no panic. \
          SEND: &[u8] of 2^26-1, 2^26, 2^26+1 bytes on its own / in a struct / in a variant / as dict value (dict region \
          12+n at 2^26-1..2^26+1), &[u64] fast path and element-wise path, Param-API arrays and dicts at the boundary; \
